@@ -52,10 +52,13 @@ func init() {
 		ctx.writeSysCases("mon_C05", true)
 		ctx.writeCasesJSON()
 	}})
+	histSuite("c02", "mon_C02", "authorization requests (GET and POST; plain and pushed) over redirect_uri variants (exact, prefix/suffix/case/port/scheme/userinfo/percent-encoding variations, pushed-unregistered URIs replayed in plain requests, outer/inner disagreement, absent) crossed with error-producing parameters, response modes and policy outcomes; sequences with pushed unregistered redirect URIs followed by ordinary requests",
+		140, 5000, 34, map[string]bool{"par": true, "implicit": true},
+		map[string]int{"authorize": 34, "callback": 16, "par": 16, "code": 6, "refresh": 1, "cc": 1, "query": 3, "tick": 5, "bc": 1, "poll": 1, "notify": 1}, 45)
 	histSuite("c03", "mon_C03", "interleaved authorizations for several clients/users, redemptions by the right or another client with right/wrong/absent redirect_uri and code_verifier (both methods), ticks across the 60 s code lifetime, replays, then uses of the resulting tokens",
 		120, 4000, 34, map[string]bool{"pkce": true, "refresh": true},
 		map[string]int{"authorize": 20, "callback": 8, "par": 3, "code": 26, "refresh": 8, "cc": 1, "query": 18, "tick": 8, "bc": 1, "poll": 1, "notify": 1}, 35)
-	histSuite("c10", "mon_C10", "refresh chains of 1-30 refreshes with requested sub/supersets, by the owning or another client, ticks up to and beyond the grant lifetime, rotation on and off, grants from authorization_code and CIBA; introspection of refresh tokens",
+	histSuite("c10", "mon_C10x", "refresh chains of 1-30 refreshes with requested sub/supersets, by the owning or another client, ticks up to and beyond the grant lifetime, rotation on and off, grants from authorization_code and CIBA; introspection of refresh tokens",
 		100, 4000, 40, map[string]bool{"refresh": true, "ciba": true},
 		map[string]int{"authorize": 10, "callback": 4, "par": 1, "code": 12, "refresh": 34, "cc": 1, "query": 16, "tick": 9, "bc": 5, "poll": 7, "notify": 1}, 30)
 	histSuite("c16", "mon_C16", "CIBA histories over poll/ping/push clients with user code, scripted embedder decisions (pending, slow down, approve, deny, error), polls by the initiating or another client, ticks across the request lifetime, success/failure notifications through the provider API",
